@@ -6,7 +6,7 @@ import time
 
 from .execu import Program, Executor
 from . import builtins as _b
-from . import deku_bi, fmt_bi, float_bi, coll_bi  # noqa: F401  (register builtins)
+from . import deku_bi, fmt_bi, float_bi, coll_bi, iter_bi, std_bi  # noqa: F401  (register builtins)
 
 REPO = os.environ.get('VERIF_REPO', '/repo')
 CACHE = os.environ.get('VERIF_CACHE', '/verif/.cache')
